@@ -78,6 +78,11 @@ func TestVerifSim(t *testing.T) {
 		code = run()
 		verifos.Finish(&done)
 		<-finished
+		// main() does os.Exit(run()): goroutines the program left behind (a signal handler
+		// waiting for its signal) end with the process, they are not a deadlock of the bubble
+		verifos.WriteResult(code & 0xff)
+		os.Stdout, os.Stderr = realOut, realErr
+		os.Exit(0)
 	})
 	// main() does os.Exit(run()): the status a parent sees is the low 8 bits
 	verifos.WriteResult(code & 0xff)
